@@ -107,7 +107,7 @@ func (g *gen) instr(b *ssa.BasicBlock, idx int, ins ssa.Instruction) {
 				v.Place = &Place{Kind: plCell, Ref: ref, Elem: pt}
 				if !cellWrittenElsewhere(ins) {
 					// a local variable that no closure assigns and whose address does not escape: calls cannot change it
-					g.stableCells = append(g.stableCells, stableCell{ref: ref, key: cellKey(g.st.sortOf(pt))})
+					g.stableCells = append(g.stableCells, stableCell{ref: ref, key: cellKey(g.st.sortOf(pt)), once: storedOnceAtEntry(ins)})
 				}
 			}
 		}
@@ -980,7 +980,10 @@ func isConstLike(v ssa.Value) bool {
 	return false
 }
 
-type stableCell struct{ ref, key string }
+type stableCell struct {
+	ref, key string
+	once     bool // stored only in the entry block: survives loop cuts as well
+}
 
 // cellWrittenElsewhere: can code outside this function body (closures, callees) store into the local variable?
 func cellWrittenElsewhere(a *ssa.Alloc) bool {
@@ -1031,4 +1034,23 @@ func cellWrittenElsewhere(a *ssa.Alloc) bool {
 		}
 	}
 	return false
+}
+
+
+// storedOnceAtEntry: the only store to the cell happens in the entry block (a spilled parameter, a variable
+// initialised once and then only read): loops of the function cannot change it either.
+func storedOnceAtEntry(a *ssa.Alloc) bool {
+	if a.Referrers() == nil || a.Block() == nil || a.Block().Index != 0 {
+		return false
+	}
+	n := 0
+	for _, r := range *a.Referrers() {
+		if st, ok := r.(*ssa.Store); ok && st.Addr == ssa.Value(a) {
+			n++
+			if st.Block() == nil || st.Block().Index != 0 {
+				return false
+			}
+		}
+	}
+	return n <= 1
 }
